@@ -56,6 +56,57 @@ def alloc_cap(chk: Check) -> None:
                             chk.ok(rule, inst, {"rejected_with": it.exc_class_name(out[1].exc)})
 
 
+def entry_id_cap(chk: Check) -> None:
+    """Entry ids far beyond the declared size must be rejected without an allocation proportional to the id."""
+    rule = "C17.TAINT.alloc-cap"
+    for role, mtype in (("name", "RdfNameEntry"), ("prefix", "RdfPrefixEntry"), ("datatype", "RdfDatatypeEntry")):
+        for ident in (5000, 30_000_000, 2**32 - 1):
+            for integ, mod in (("generic", K.GP), ("rdflib", K.RP)):
+
+                def scenario(it: Interp) -> Any:
+                    k = K.Kit(it)
+                    w = K.Wire(it)
+                    frame = w.frame([w.options_row(1, 1, names=16, prefixes=16, datatypes=16), w.msg("RdfStreamRow", **{role: w.msg(mtype, id=ident, value=sstr(Atom("v")))})] + w.statement_rows(1))
+                    return len(it.drain(k.call(k.get(mod, "parse_jelly_flat"), k.input_stream([frame]))))
+
+                inst = f"{integ}.parse_jelly_flat {role} entry id {ident} with table size 16"
+                for it, out in explore(chk.program, scenario, max_paths=8, generic_strings=True):
+                    chk.paths += 1
+                    big = [(e["what"], e["size"], e["site"]) for e in it.events if e["kind"] == "alloc" and (isinstance(e["size"], Unknown) or (isinstance(e["size"], int) and e["size"] > spec.MAX_TABLE_ON_READ))]
+                    if big:
+                        b = big[0]
+                        chk.fail(rule, inst, f"{b[2][0]}.{b[2][2]}:allocation-sized-by-entry-id", f"an allocation of size {b[1]!r} ({b[0]}) driven by a declared entry id happens in {b[2][2]}")
+                    elif out[0] == "ok":
+                        chk.fail(rule, inst, "pyjelly.parse.lookup.LookupDecoder.assign_entry:range", f"an entry with id {ident} in a table of 16 is accepted")
+                    else:
+                        chk.ok(rule, inst, {"rejected_with": it.exc_class_name(out[1].exc)})
+
+
+def iterator_nesting(chk: Check) -> None:
+    """Leading empty frames must not build an iterator nested once per frame (C stack exhaustion on iteration)."""
+    rule = "C17.PATH.iterator-nesting"
+    depths = {}
+    for n_empty in (1, 4, 9):
+
+        def scenario(it: Interp) -> Any:
+            k = K.Kit(it)
+            w = K.Wire(it)
+            frames = [w.frame([]) for _ in range(n_empty)] + [w.frame([w.options_row(1, 1)] + w.statement_rows(1))]
+            opts, fr = it.unpack_values(k.call(k.get(K.IO, "get_options_and_frames"), k.input_stream(frames)))
+            return len(it.drain(fr))
+
+        for it, out in explore(chk.program, scenario, max_paths=4, generic_strings=True):
+            chk.paths += 1
+            if out[0] != "ok":
+                chk.fail(rule, f"{n_empty} leading empty frames", "pyjelly.parse.ioutils.get_options_and_frames", f"raises {it.exc_class_name(out[1].exc)}")
+                continue
+            depths[n_empty] = max([e["depth"] for e in it.events if e["kind"] == "chain"] or [0])
+    if depths and max(depths.values()) > 3 and depths.get(9, 0) > depths.get(1, 0) + 4:
+        chk.fail(rule, "nesting grows with the number of empty frames", "pyjelly.parse.ioutils.get_options_and_frames:nested-chain", f"itertools.chain objects are nested once per leading empty frame (depths {depths}): iterating them recurses on the C stack, a few hundred thousand empty frames kill the interpreter")
+    else:
+        chk.ok(rule, "nesting independent of the number of empty frames", {"chain_depth_by_empty_frames": depths})
+
+
 def recursion_shape(chk: Check) -> None:
     rule = "C17.PATH.structural-recursion"
     for depth in (1, 3, 6):
@@ -162,6 +213,9 @@ def check(chk: Check) -> None:
     chk.rule("C17.PATH.loop-progress", "every while loop on the parse path consumes input; the frame iterator stops at EOF", floor=4)
     chk.trusted += ["protobuf's own parser limits (recursion depth 100, length checks)", "allocation events of the interpreter's models (seq*n, deque(maxlen))"]
     chk.undecided += ["wall time, peak RSS, interpreter crashes: runtime quantities, not decidable statically here"]
+    chk.rule("C17.PATH.iterator-nesting", "the frame iterator handed out does not nest lazy iterators once per input frame", floor=1)
     alloc_cap(chk)
+    entry_id_cap(chk)
+    iterator_nesting(chk)
     recursion_shape(chk)
     loop_progress(chk)
